@@ -56,8 +56,11 @@ trait CommonThreadInfo {
 
         let status_path = path::PathBuf::from(format!("/proc/{}/status", tid));
         let status_file = std::fs::File::open(status_path)?;
-        for line in io::BufReader::new(status_file).lines() {
-            let l = line?;
+        // The `Name:` line carries the thread name, which may be any bytes (it need not be
+        // valid UTF-8), so the file is split as bytes and only then read as text.
+        for line in io::BufReader::new(status_file).split(b'\n') {
+            let line = line?;
+            let l = String::from_utf8_lossy(&line).into_owned();
             let start = l
                 .get(0..6)
                 .ok_or_else(|| ThreadInfoError::InvalidProcStatusFile(tid, l.clone()))?;
